@@ -148,10 +148,12 @@ def run_build(mos, root, cid, files):
 
 
 def grid_project(d, c, fault):
-    """one project of the configuration grid of Build.tla: mos.toml, entry file (with banks), imported file, fault"""
+    """one project of the configuration grid of Build.tla: mos.toml, entry file (with banks), imported file, fault.
+    Returns (file, line) of the fault (None for faults that are not in a source file)."""
     cfg = c["cfg"]
     entry = os.path.join(d, cfg["entry"])
     os.makedirs(os.path.dirname(entry), exist_ok=True)
+    os.makedirs(os.path.join(d, "sub", "dir"), exist_ok=True)
     t = ['[build]', 'entry = "%s"' % cfg["entry"], 'target-directory = "%s"' % cfg["tdir"], 'listing = %s' % ("true" if cfg["listing"] else "false"),
          'symbols = [%s]' % ('"vice"' if cfg["symbols"] else "")]
     if cfg["fmt"] != "none":
@@ -171,38 +173,52 @@ def grid_project(d, c, fault):
         body.append("  jmp nowhere")
     if fault == "parse":
         body.append("  lda #")
+    where = None
     if cfg["banks"] == 0:
         src += body
     else:
-        src += ['.segment "b1" {'] + body + ["}"]
+        src += ['.segment "b1" {'] + body
+    if fault in ("codegen", "parse"):
+        where = (os.path.basename(cfg["entry"]), len(src))
+    if cfg["banks"] > 0:
+        src += ["}"]
         for b in range(2, cfg["banks"] + 1):
             src += ['.segment "b%d" {' % b, "  .byte %d" % b, "}"]
     open(entry, "w").write("\n".join(src) + "\n")
     if cfg["imports"]:
         open(os.path.join(os.path.dirname(entry), "inc.asm"), "w").write("ilab: .byte 9\n" + ("  .byte ,\n" if fault == "importparse" else ""))
+        if fault == "importparse":
+            where = ("inc.asm", 2)
+    return where
+
+
+LOC = re.compile(r"([^\s:]+\.asm):(\d+):(\d+)")
 
 
 def run_grid_case(mos, root, i, c, precreate):
     d = os.path.join(root, "g%d" % i)
     shutil.rmtree(d, ignore_errors=True)
     os.makedirs(d)
-    grid_project(d, c, c["fault"])
+    where = grid_project(d, c, c["fault"])
     tdir = os.path.join(d, c["cfg"]["tdir"])
     if precreate:
         os.makedirs(tdir)
         for fn in c["all"]:
             open(os.path.join(tdir, fn), "w").write("sentinel " + fn)
     before = snapshot(tdir) if precreate else []
+    cwd = d if c["cfg"]["cwd"] == "root" else os.path.join(d, "sub", "dir")
     try:
-        p = subprocess.run([mos, "--no-color", "-e", "Short", "build"], cwd=d, capture_output=True, text=True, timeout=60)
+        p = subprocess.run([mos, "--no-color", "-e", c["cfg"]["style"], "build"], cwd=cwd, capture_output=True, text=True, timeout=60)
         rc, out, hung = p.returncode, p.stdout + p.stderr, False
     except subprocess.TimeoutExpired:
         rc, out, hung = -9, "", True
     exists = os.path.isdir(tdir)
     after = snapshot(tdir) if exists else []
+    stray = os.path.isdir(os.path.join(cwd, c["cfg"]["tdir"])) and cwd != d      # outputs must not follow the working directory
     shutil.rmtree(d, ignore_errors=True)
-    return {"id": i, "cfg": c["cfg"], "fault": c["fault"], "exit": rc, "crashed": hung or rc not in (0, 1), "dirBefore": precreate, "dirAfter": exists,
-            "before": before, "after": after, "stdout": out[-800:]}
+    locs = [{"file": os.path.basename(m.group(1)), "line": int(m.group(2)), "col": int(m.group(3))} for m in LOC.finditer(out)]
+    return {"id": i, "cfg": c["cfg"], "fault": c["fault"], "exit": rc, "crashed": hung or rc not in (0, 1), "dirBefore": precreate, "dirAfter": exists and not stray,
+            "before": before, "after": after, "stdout": out[-800:], "locs": locs, "faultFile": where[0] if where else "", "faultLine": where[1] if where else 0}
 
 
 def config_grid(rep, mos, grid, tier):
